@@ -33,4 +33,10 @@ CHECKS = {
                  "real descriptor is projected and TLC compares index, name, field type, struct type name, explicit presence, logical types and element "
                  "count recursively with the model's DescriptorOf.",
          "note": TB + " Recursive types are excluded here: Descriptor() of a recursive type does not return (finding F16); map-entry synthetic names are not compared."},
+ "C18": {"technique": "TLA+ limb-arithmetic model of varint / zig-zag / tag / skip, exhaustive boundary universe in TLC + trace validation of plenccore calls",
+         "text": "TLC checks on the model that append/read/size agree, zig-zag is a bijection with the k-byte property, tags round trip and Skip of a well-formed "
+                 "field is exactly its length for every boundary value and every canonical limb sequence up to the bound; the same values, plus every truncation / "
+                 "over-long / huge-length mutation of well-formed fields and random 64-bit values and byte strings, go through the real plenccore functions and "
+                 "TLC judges each result (error or in-range length allowed by SkipAllowed, never a panic / hang / over-run).",
+         "note": TB + " Exhausting all 2^32 values is beyond TLC (about 7k judged events/s per worker): boundary classes are exhaustive, the rest is random."},
 }
